@@ -311,7 +311,7 @@ func c19Decoders(r *ev.Run, batch int) {
 				r.LogCase(fmt.Sprintf("C19 decode target=%s input=%s", tg.name, input))
 				decodeOne(r, tg, input)
 			}
-			if batch == 0 && i < 3 && r.NeedSample() {
+			if r.NeedSample() {
 				r.Sample(map[string]interface{}{"kind": "decoder input", "input": trunc(string(input), 300)})
 			}
 		}
@@ -504,7 +504,7 @@ func c19Database(r *ev.Run, batch int) {
 				}
 				pre = ref.NewDB(s)
 			}
-			if batch == 1 && ri == 0 && i < 40 && r.NeedSample() {
+			if r.NeedSample() {
 				r.Sample(map[string]interface{}{"kind": "operation list", "ops": trunc(string(text), 400)})
 			}
 		}
@@ -670,7 +670,7 @@ func c19Wire(r *ev.Run, batch int) {
 			} else {
 				r.Count("wire.result_reply", 1)
 			}
-			if batch == 2 && ri == 0 && i < 30 && r.NeedSample() {
+			if r.NeedSample() {
 				r.Sample(map[string]interface{}{"kind": "transact request", "request": trunc(string(text), 400)})
 			}
 		}
